@@ -399,6 +399,7 @@ def _real(run, P):
                 want = "real"
             elif declared == {"Boolean()"}:
                 want = "flag"
+            _scalar_results(run, P, c, grk, fn, rets, prets, i, n_pos, ident)
             if want is None:
                 _arg_dependent(run, P, c, grk, fn, rets, prets, i, n_pos, ident)
                 continue
@@ -446,6 +447,81 @@ def _const(run, P):
            why="a test on the value (numpy.iscomplex) calls (0.5+0j) real although "
                "arithmetic with it stays complex; a test on the built-in type alone "
                "misses np.complex64, which does not derive from complex")
+
+
+# numpy facts about the *rank* of a result for arguments of any rank:
+#   scalar - always a scalar;  same - the rank of its (first) argument;  other - anything else
+RANK_FACTS = {
+    "np.vdot": "scalar", "np.linalg.norm": "scalar", "la.norm": "scalar", "np.size": "scalar",
+    "len": "scalar", "np.sum": "scalar", "np.max": "scalar", "np.min": "scalar",
+    "np.isscalar": "scalar", "float": "scalar", "int": "scalar", "bool": "scalar",
+    "abs": "same", "np.abs": "same", "np.absolute": "same", "np.conj": "same", "np.isnan": "same",
+    "np.sqrt": "same", "np.real": "same",
+    "np.inner": "other", "np.dot": "other", "np.matmul": "other", "np.outer": "other",
+    "np.tensordot": "other", "np.einsum": "other",
+}
+
+
+def _rank(e, fn, scalar_names=()):
+    """'scalar' | 'any' (rank of an argument) | 'other' | 'unknown'"""
+    if isinstance(e, ast.Constant):
+        return "scalar"
+    if isinstance(e, ast.Name):
+        if e.id in scalar_names:
+            return "scalar"
+        return "any" if e.id in fn.params else "unknown"
+    if isinstance(e, ast.Call):
+        if isinstance(e.func, ast.Attribute) and e.func.attr in ("any", "all", "sum", "max", "min") \
+                and not e.args and _np_name(e.func, fn) not in RANK_FACTS:
+            return "scalar" if _rank(e.func.value, fn, scalar_names) in ("any", "scalar") else "unknown"
+        fact = RANK_FACTS.get(_np_name(e.func, fn))
+        if fact == "scalar":
+            return "scalar"
+        if fact == "same":
+            return _rank(e.args[0], fn, scalar_names) if e.args else "unknown"
+        if fact == "other":
+            return "other"
+        return "unknown"
+    if isinstance(e, (ast.BinOp,)):
+        a, b = _rank(e.left, fn, scalar_names), _rank(e.right, fn, scalar_names)
+        if "unknown" in (a, b) or "other" in (a, b):
+            return "other" if "other" in (a, b) else "unknown"
+        return "any" if "any" in (a, b) else "scalar"
+    if isinstance(e, ast.UnaryOp):
+        return _rank(e.operand, fn, scalar_names)
+    return "unknown"
+
+
+def _scalar_results(run, P, c, grk, fn, rets, prets, i, n_pos, ident):
+    """A result declared Scalar / Boolean for array or user-type arguments is a
+    scalar whatever the rank of the run-time representation."""
+    declared = {ast.unparse(r.value.elts[i]).split("(")[0] for r in rets if len(r.value.elts) == n_pos}
+    if not declared or not declared <= {"Scalar", "Boolean"}:
+        return
+    from ..engine.cfg import CFG
+    g = CFG(fn.node)
+    for pr in prets:
+        v = pr.value
+        if n_pos > 1:
+            if not (isinstance(v, ast.Tuple) and len(v.elts) == n_pos):
+                continue
+            v = v.elts[i]
+        # names known to be scalars on this path: returns under 'if np.isscalar(x):'
+        scalar_names = set()
+        for n in ast.walk(fn.node):
+            if isinstance(n, ast.If) and isinstance(n.test, ast.Call) \
+                    and _np_name(n.test.func, fn) == "np.isscalar" and n.test.args \
+                    and any(x is pr for s_ in n.body for x in ast.walk(s_)):
+                scalar_names.add(dotted(n.test.args[0]))
+        got = _rank(v, fn, scalar_names)
+        if got == "unknown":
+            raise AnalysisError(f"{fn.fq}: rank of {norm(v)} not derivable from the numpy facts table")
+        run.ob("C09.real", fn, pr, got == "scalar",
+               construct=f"{ident} result {i}: declared {sorted(declared)[0]}; {norm(v)} is "
+                         f"{'a scalar for arguments of any rank' if got == 'scalar' else 'not a scalar for arguments of rank 2 or more'}",
+               why="user-type values may be represented by arrays of any rank: a contraction "
+                   "of the last axis only (np.inner, np.dot) returns a matrix where the "
+                   "kind says scalar")
 
 
 def _arg_dependent(run, P, c, grk, fn, rets, prets, i, n_pos, ident):
